@@ -175,6 +175,10 @@ def _print(*a):
 
 def run_replay(mod, prop_id, path):
     rp = core.load_replay(path)
+    if '-O' in rp.get('python_flags', ()) and not sys.flags.optimize:
+        # the case only fails in an optimized interpreter (python -O: asserts and `if __debug__:` blocks are compiled out)
+        import subprocess
+        return subprocess.call([sys.executable, '-O', '-B', '-m', 'vlib.main', prop_id, '--replay', path])
     sub = mod.SUBS[rp['sub']]
     out, herr = safe_run(sub, rp['case'])
     if herr is not None:
@@ -275,6 +279,7 @@ def main(argv=None):
         shards = sub.quick_shards if tier == 'quick' else sub.thorough_shards
         shards = max(1, min(shards, total))
         per = (total + shards - 1) // shards
+        per = max(1, int(per * float(os.environ.get('VERIF_SCALE', '1'))))
         for s in range(shards):
             tasks.append((PROPS[prop_id], name, tier, seed, s, per, deadline,
                           sorted(core.ACTIVE_KNOWN)))
@@ -337,8 +342,54 @@ def main(argv=None):
                     failures[key] = (size, case, detail)
             extra_info = ex.get('info', {})
 
+    # ---- 3c. the same search, at a fifth of the size, in an optimized interpreter (python -O) ------------------
+    # environment dimension: validation written as `assert` or under `if __debug__:` silently disappears there
+    opt_pass = None
+    child_lines = []
+    if not sys.flags.optimize and os.environ.get('VERIF_OPT_PASS', '1') != '0':
+        import subprocess
+        import tempfile
+        fd, tmp_ev = tempfile.mkstemp(prefix='verif_opt_', suffix='.json')
+        os.close(fd)
+        env = dict(os.environ, VERIF_SCALE='0.2', VERIF_EVIDENCE=tmp_ev, VERIF_OPT_PASS='0',
+                   VERIF_BUDGET_S=str(max(20.0, min(budget * 0.4, deadline - time.time()))))
+        try:
+            cp = subprocess.run([sys.executable, '-O', '-B', '-m', 'vlib.main', prop_id, tier], env=env, capture_output=True, text=True,
+                                timeout=budget + 600)
+            child_ev = json.load(open(tmp_ev)) if os.path.getsize(tmp_ev) else {}
+            opt_pass = {'python_flags': ['-O'], 'evaluations': child_ev.get('coverage', {}).get('evaluations', 0),
+                        'distinct_nontrivial': child_ev.get('coverage', {}).get('distinct_nontrivial', 0),
+                        'failure_kinds': child_ev.get('coverage', {}).get('failure_kinds', []), 'exit': cp.returncode}
+            if cp.returncode == 1:
+                keep = False
+                for line in cp.stdout.splitlines():
+                    if line.startswith('FAILURE') or line.startswith('replay '):
+                        keep = True
+                        child_lines.append('[python -O pass] ' + line)
+                    elif line.startswith('VIOLATION'):
+                        child_lines.append(line)
+                        keep = False
+                    elif keep and line.startswith('  '):
+                        child_lines.append(line)
+                    else:
+                        keep = False
+            elif cp.returncode != 0:
+                harness_errors.append('optimized-interpreter pass exited %r: %s' % (cp.returncode, (cp.stdout + cp.stderr)[-1500:]))
+        except Exception:       # noqa
+            harness_errors.append('optimized-interpreter pass: ' + traceback.format_exc(limit=5))
+        finally:
+            try:
+                os.unlink(tmp_ev)
+            except OSError:
+                pass
+
     # ---- 4. shrink + report ------------------------------------------------
     vio_lines = []
+    for line in child_lines:
+        if line.startswith('VIOLATION'):
+            vio_lines.append(line)
+        else:
+            _print(line)
     for (sub_name, case, out, rpath) in violations:
         _print('replay %s FAILS: kind=%s %s' % (rpath, out.kind, out.detail))
         vio_lines.append('VIOLATION property=%s replay=%s' % (prop_id, os.path.relpath(rpath, core.VERIF_DIR)))
@@ -390,6 +441,8 @@ def main(argv=None):
         'failure_kinds': sorted('%s:%s' % k for k in failures),
     }
     cov.update(extra_info)
+    if opt_pass is not None:
+        cov['optimized_interpreter_pass'] = opt_pass
     ev = {
         'property_id': prop_id, 'tier': tier, 'seed': seed,
         'level': getattr(mod, 'LEVEL', 'exploration'),
